@@ -93,6 +93,9 @@ def impl_violation(op, line):
         return "verification passed although a key is missing from the new file"
     if r.get("v1") != "same" and o.get("d") != "1":
         return "V1 files removed without DeleteOld"
+    if res == "skipped" and "=" in op.split(" | folder=")[-1]:
+        return ("a swamp that holds records was skipped as empty" +
+                (" and its V1 files were removed: nothing is left of it" if r.get("v1") != "same" else ""))
     if pre:
         return None                          # skipped (empty swamp): the file is kept, checked above
     if res == "success":
